@@ -384,3 +384,32 @@ def _generic_as_ref(m, args, ci):
         return t
     s, a, b = seq_of(t)
     return Slice(s, a, b)
+
+@I.rx(r'^(bytes::)?BytesMut::unsplit$')
+def _bm_unsplit(m, args, ci):
+    b = _bm(args)
+    o = args[1]
+    _bm_append(b, list(o.seq.items[o.start:o.end]))
+    return unit()
+
+@I.rx(r'^(bytes::)?BytesMut::(split|split_off)$')
+def _bm_split_all(m, args, ci):
+    b = _bm(args)
+    if ci.name.endswith('split_off'):
+        return _split_off(m, args, ci)
+    out = BytesBuf(b.seq.items[b.start:b.end], 'BytesMut')
+    del b.seq.items[b.start:]
+    b.end = len(b.seq.items)
+    return out
+
+@I.rx(r'^(bytes::)?BytesMut::advance$|^<(bytes::)?BytesMut as (bytes::)?Buf>::advance$')
+def _bm_advance(m, args, ci):
+    b = _bm(args)
+    n = args[1]
+    if isinstance(n, T):
+        n = m.concretize(n, 0, b.remaining() + 1, 'BytesMut::advance')
+    if n > b.remaining():
+        raise Panic('cannot advance past `remaining`: %d <= %d' % (n, b.remaining()))
+    del b.seq.items[b.start:b.start + n]
+    b.end = len(b.seq.items)
+    return unit()
